@@ -68,10 +68,11 @@ def confirm(d, wt):
     return ok
 
 
-def check(d, tier="quick"):
+def check(d, tier="quick", pid=None):
     meta = json.load(open(os.path.join(d, "meta.json")))
-    pid = meta["property"]
-    scratch = "/var/tmp/seedrun.%s" % os.path.basename(d.rstrip("/"))
+    primary = meta["property"]
+    pid = pid or primary
+    scratch = "/var/tmp/seedrun.%s.%s" % (os.path.basename(d.rstrip("/")), pid)
     shutil.rmtree(scratch, ignore_errors=True)
     sh("rsync -a --exclude target --exclude .git /repo/ %s/" % scratch)
     rc, o = sh("patch -p1 < %s" % os.path.join(d, "patch.diff"), scratch)
@@ -82,8 +83,9 @@ def check(d, tier="quick"):
     shutil.rmtree(scratch, ignore_errors=True)
     lines = [l for l in o.split("\n") if l.startswith(("VIOLATION", "UNDECIDED", "KNOWN", "  failed obligation"))]
     verdict = {0: "MISSED (exit 0)", 1: "CAUGHT (exit 1)", 2: "UNDECIDED (exit 2)"}.get(rc, "rc=%d" % rc)
-    open(os.path.join(d, "check_result.txt"), "w").write("%s tier=%s\n%s\n" % (verdict, tier, "\n".join(lines)[:3000]))
-    print(d, verdict)
+    name = "check_result.txt" if pid == primary else "check_result_%s.txt" % pid
+    open(os.path.join(d, name), "w").write("%s tier=%s property=%s\n%s\n" % (verdict, tier, pid, "\n".join(lines)[:3000]))
+    print(d, pid, verdict)
     for l in lines[:6]:
         print("   ", l[:200])
 
@@ -93,4 +95,4 @@ if __name__ == "__main__":
     if sys.argv[1] == "confirm":
         confirm(sys.argv[2], sys.argv[3])
     else:
-        check(sys.argv[2], *(sys.argv[3:4]))
+        check(sys.argv[2], *(sys.argv[3:5]))
